@@ -209,13 +209,46 @@ fn skew_strategy() -> impl Strategy<Value = Case> {
         })
 }
 
+/// Chunks of 2-4 MB (above every internal buffer size: 1 MiB refill, 1 MiB brotli buffer, tokio's 2 MiB file buffer),
+/// compressible and not, compared across buffered-chunks 1 / 2 / 8 / 64: how many chunks are in flight (or how many idle
+/// workers there are) must not change a single stored byte.
+fn bigchunk_strategy() -> impl Strategy<Value = Case> {
+    (
+        2_100_000usize..=3_600_000,
+        any::<bool>(),
+        prop_oneof![3 => (1u32..=5).prop_map(Comp::Brotli), 2 => (1u32..=3).prop_map(Comp::Zstd), 1 => Just(Comp::Lzma(1)), 1 => Just(Comp::None)],
+        any::<u32>(),
+        0u8..3,
+    )
+        .prop_map(|(size, cli, comp, seed, shape)| {
+            let chunker = ChunkerCfg { algo: Algo::FixedSize, bits: 0, min: 0, max: size, window: 0 };
+            let n = size as u32;
+            let source = match shape {
+                0 => vec![Seg::Text { n: n + n / 2, seed }],
+                1 => vec![Seg::Const { b: 0, n }, Seg::Random { n: n / 3, seed }, Seg::Text { n, seed }],
+                _ => vec![Seg::Small { n, seed, alpha: 3 }, Seg::Const { b: 0x55, n: n / 2 }],
+            };
+            let mk = |buffers: usize, multi: bool, workers: usize, blocking: usize, stdin: bool| Sched {
+                buffers,
+                rt: RtShape { multi, workers, blocking },
+                reads: ReadScript::full(),
+                stdin,
+                delays: vec![],
+                stale_tmp: None,
+                fresh_process: false,
+            };
+            let runs = vec![mk(1, false, 1, 1, false), mk(2, true, 2, 4, false), mk(8, true, 4, 8, true), mk(64, true, 3, 16, false)];
+            Case { source, chunker, hash_len: 64, comp, cli, runs, metadata: vec![] }
+        })
+}
+
 impl Prop for C12 {
     fn id(&self) -> &'static str {
         "C12"
     }
     fn meta(&self, _tier: Tier) -> Meta {
         Meta {
-            rule: "cases = (source spec, options incl. 0-8 metadata entries, writer in {library, CLI}, 3-4 runs differing in buffered-chunks {1,2,3,8,64}, runtime shape, read fragmentation, file vs pipe delivery (stdin, -i /dev/stdin, a named pipe) and injected syscall delay scripts; 15 % of the library writer's runs are made by a freshly started helper process, the others by the long-lived worker process that has compressed hundreds of other cases with other codecs and levels before). Oracle (metamorphic): all archives of one case are byte-identical. Variant 'skew' builds a slow chunk (64 KiB-400 KiB constant run cut at max) ahead of hundreds of few-byte chunks. Non-trivial = >=2 chunks, runs differ in at least one schedule parameter and at least one run has buffered-chunks >= 2; distinct by Blake2 of the canonical case.".into(),
+            rule: "cases = (source spec, options incl. 0-8 metadata entries, writer in {library, CLI}, 3-4 runs differing in buffered-chunks {1,2,3,8,64}, runtime shape, read fragmentation, file vs pipe delivery (stdin, -i /dev/stdin, a named pipe) and injected syscall delay scripts; 15 % of the library writer's runs are made by a freshly started helper process, the others by the long-lived worker process that has compressed hundreds of other cases with other codecs and levels before). Oracle (metamorphic): all archives of one case are byte-identical. Variant 'bigchunk': chunks of 2.1-3.6 MB (above every internal buffer size), compressible and not, compared across buffered-chunks 1 / 2 / 8 / 64 and runtime shapes. Variant 'skew' builds a slow chunk (64 KiB-400 KiB constant run cut at max) ahead of hundreds of few-byte chunks. Non-trivial = >=2 chunks, runs differ in at least one schedule parameter and at least one run has buffered-chunks >= 2; distinct by Blake2 of the canonical case.".into(),
             assumptions: vec!["schedules are perturbed, not enumerated; library and CLI archives are not compared with each other (version string may legitimately differ)".into()],
             ..Meta::default()
         }
@@ -224,6 +257,7 @@ impl Prop for C12 {
         let t = cx.tier;
         cx.run_prop("det", t.pick(2400, 60_000), case_strategy(), run_case);
         cx.run_prop("skew", t.pick(96, 3000), skew_strategy(), run_case);
+        cx.run_prop("bigchunk", t.pick(32, 600), bigchunk_strategy(), run_case);
         let dir = worker_dir("C12");
         let _ = std::fs::remove_dir_all(dir);
     }
